@@ -1028,6 +1028,51 @@ fn main() {
         println!("router_send_blocks sndtimeo={} {}", sndtimeo, res);
         std::process::exit(0);
       }
+      "linger_flush" => {
+        // linger_flush <n> <size> <linger_ms>: public API; PUSH (own context, SNDHWM > n, LINGER as given) connects to a PULL
+        // in another context, send() accepts n messages of <size> bytes, then close() + term() of the PUSH side; afterwards
+        // the PULL side reads everything that arrives.
+        let n: usize = it.next().unwrap().parse().unwrap();
+        let size: usize = it.next().unwrap().parse().unwrap();
+        let linger: i32 = it.next().unwrap().parse().unwrap();
+        let rt = tokio::runtime::Builder::new_multi_thread().worker_threads(4).enable_all().build().unwrap();
+        let (accepted, close_ms, got) = rt.block_on(async move {
+          let ctx_rx = rzmq::Context::new().unwrap();
+          let ctx_tx = rzmq::Context::new().unwrap();
+          let pull = ctx_rx.socket(rzmq::SocketType::Pull).unwrap();
+          pull.set_option(rzmq::socket::options::RCVHWM, (n + 100) as i32).await.unwrap();
+          pull.set_option(rzmq::socket::options::RCVTIMEO, 1500i32).await.unwrap();
+          pull.bind("tcp://127.0.0.1:0").await.unwrap();
+          let ep = String::from_utf8(pull.get_option(rzmq::socket::options::LAST_ENDPOINT).await.unwrap()).unwrap();
+          let push = ctx_tx.socket(rzmq::SocketType::Push).unwrap();
+          push.set_option(rzmq::socket::options::SNDHWM, (n + 100) as i32).await.unwrap();
+          push.set_option(rzmq::socket::options::LINGER, linger).await.unwrap();
+          push.connect(&ep).await.unwrap();
+          tokio::time::sleep(Duration::from_millis(300)).await;
+          let mut accepted = 0usize;
+          for i in 0..n {
+            let mut v = vec![0x5Au8; size.max(4)];
+            v[..4].copy_from_slice(&(i as u32).to_be_bytes());
+            if push.send(rzmq::Msg::from_vec(v)).await.is_ok() {
+              accepted += 1;
+            }
+          }
+          let t0 = Instant::now();
+          let _ = push.close().await;
+          let _ = ctx_tx.term().await;
+          let close_ms = t0.elapsed().as_millis();
+          let mut got = 0usize;
+          while let Ok(_m) = pull.recv().await {
+            got += 1;
+          }
+          (accepted, close_ms, got)
+        });
+        println!(
+          "linger_flush accepted={} linger_ms={} close_and_term_took={}ms received={} {}",
+          accepted, linger, close_ms, got, if got == accepted { "all delivered" } else { "ACCEPTED MESSAGES DISCARDED within the linger period" }
+        );
+        std::process::exit(0);
+      }
       "handshake_drip" => {
         // handshake_drip <ivl_ms> <gap_ms> <bytes>: public API, PULL listener with HANDSHAKE_IVL=<ivl_ms>; a raw peer sends one
         // greeting byte every <gap_ms> (< ivl) for <bytes> bytes, i.e. for longer than the interval, never completing the
